@@ -24,7 +24,7 @@ EXHAUSTIVE_NOTE = "phase 'grid' enumerates (count 0..17) x (max 0..16) x 5 frame
 FLOORS = {"near-limit": 0.3, "needs-escaping": 0.3}
 
 ALPHABET = ['"', "\\", "\n", ",", "\t", "'", "é", "ß", "Ж", "😀", "𝔘", " ", "a", "b", "c", "x", "y", "{", "}", "%", "$", "#", "\r",
-            " ", "\x7f", "`", "/", "-"]
+            " ", "\x7f", "`", "/", "-", "\u2029", "\x85", "\x0c", "\x1c"]
 ESCAPING = set('"\\\n\t\'\r \x7f') | {"😀", "𝔘", "é", "ß", "Ж"}
 
 
